@@ -176,6 +176,10 @@ class TU:
             if o1 == o2 and c1 == c2:
                 # identical behaviour (also an identical crash/abort caused by the library itself) is agreement
                 ok += 1
+            elif c1 not in ('ok', 'assert') or c2 not in ('ok', 'assert'):
+                # a crash on either side (undefined behaviour executed concretely, e.g. by a defective library) says nothing about the
+                # translator: the vector is inconclusive; the solver's verdict and the sanitizer replay of its counterexample decide
+                pass
             else:
                 problems.append({'vector': [choices, nd], 'native': [c1, o1[:20], r1[2][-300:]], 'translated': [c2, o2[:20], r2[2][-300:]]})
         return ok, problems
